@@ -310,6 +310,17 @@ def diverge_probe(rng):
     return None, {'nonfinite': not fin}, case
 
 
+def population_search(ctx):
+    """failing-input search over a fresh population (also used when an exception raised inside the implementation
+    ended the correspondence run early)"""
+    for i in range(300):
+        c = flag_case(ctx)
+        why, tags, nf = check_flag(ctx, c)
+        if why:
+            ctx.fail(why, c, tags)
+            return
+
+
 def run(ctx):
     ctx.rule = ('(a) random schedules of get/set/enter/exit atoms over 1..3 real threads, stepped deterministically so '
                 'that the chosen interleaving is realised, and random structured programs with nested with-blocks and '
@@ -397,12 +408,8 @@ def run(ctx):
     ctx.extra['nonfinite_cases_seen'] = n_nonfinite
 
     def search(ctx):
-        for i in range(300):
-            c = flag_case(ctx)
-            why, tags, nf = check_flag(ctx, c)
-            if why:
-                ctx.fail(why, c, tags)
-                return
+
+        population_search(ctx)
     return ctx.finish('proof', search)
 
 
